@@ -22,9 +22,9 @@ CLAIMS = {
         text="Vec part. Theorems (Lean): the ownership invariant Own (ids owned by the vector, dropped, moved out and held elsewhere are a "
              "permutation of the ids ever created, which are pairwise distinct) is preserved with no leak by push, pop, insert, remove, "
              "swap_remove, truncate/clear, append, split_off, drain and into_iter (partially consumed from both ends; leaks only when "
-             "forgotten), retain, drain_filter; dropping the vector drops exactly the owned ids; into_bump_slice emits no drop; hence "
-             "exactly-once at the end. Not proved, only compared: resize, extend*, splice, dedup*, clone, into_boxed_slice, "
-             "from_iter_in, vec!. Correspondence: the "
+             "forgotten), retain, drain_filter, dedup(_by/_by_key), extend; dropping the vector drops exactly the owned ids; "
+             "into_bump_slice emits no drop; hence exactly-once at the end. Not proved, only compared: splice, into_boxed_slice, vec! "
+             "(resize, extend_from_slice, clone, from_iter_in: see C16). Correspondence: the "
              "sequence of destructor calls and of values handed to the caller of every call agrees between crate and model; oracle: "
              "per-id drop ledger (no double drop, nothing dropped or moved is reachable, nothing lost on non-panicking calls, everything "
              "dropped exactly once after the containers and the arena are dropped, the arena's drop runs no destructor).",
@@ -33,9 +33,9 @@ CLAIMS = {
         text="Vec part. Theorems (Lean, for every callback answer function and every panic index): Own (leaks allowed only for a "
              "forgotten iterator or an unwinding Drain/IntoIter destructor) is preserved along the unwinding paths of drain_filter "
              "(predicate panicking in a caller's next() or in the destructor, or a yielded element's destructor panicking - the F5 "
-             "scenario, fixed in /repo), retain, truncate/clear/drop and into_iter/drain dropped with panicking destructors, and by "
-             "dropping the vector afterwards. Not proved, only exercised: dedup_by(_key), resize/extend_from_slice/clone with a "
-             "panicking Clone, extend/splice/from_iter_in with a panicking iterator, vec!. Correspondence + oracle: the harness enumerates the panic index of predicate / key / "
+             "scenario, fixed in /repo), retain, dedup_by(_key), truncate/clear/drop and into_iter/drain dropped with panicking "
+             "destructors, resize/extend_from_slice/clone with a panicking Clone, extend/from_iter_in with a panicking iterator, and by "
+             "dropping the vector afterwards. Not proved, only exercised: splice with a panicking iterator, vec!. Correspondence + oracle: the harness enumerates the panic index of predicate / key / "
              "Clone / Drop / iterator callbacks under catch_unwind (one panic per call) and checks the drop ledger and reachability after "
              "the unwinding and again after dropping the containers (F5 was reproduced this way on the pinned tree before its fix).",
         note=NOTE),
